@@ -90,6 +90,11 @@ def check_text(text, ap, model, rng, tags):
         cl.add("label-at-end")
     if ap.data:
         cl.add("data")
+    # assembling is a function of the text: the same simulation object assembles the same text again identically
+    if "C04" in tags:
+        sim_again, err_again = RA.impl_load(text, sim=sim)
+        if err_again is not None or RA.listing(sim_again) != lst or RA.lower_bytes(sim_again) != low:
+            out["C04"].append(("violation", f"assembling the same text a second time on the same simulation differs ({err_again})"))
     # spelling independence (metamorphic): two more renderings
     if "C04" in tags:
         for _ in range(2):
